@@ -376,7 +376,29 @@ fn cmd_run(args: &Args) -> i32 {
         exit = 1;
     } else if let Some(fv) = first {
         n_viol += 1;
-        let (w, o, v) = shrink::minimise(prop.as_ref(), &fv.world, &fv.ops, &fv.violation, 3000, 15);
+        replay_path = format!("{}/replays/{}-{}-{}.json", root, id, seed, fv.run);
+        let wrapped = std::env::var("SIMCHECK_WORKER_WRAP").map(|w| !w.trim().is_empty()).unwrap_or(false);
+        let (w, o, v) = if wrapped {
+            // the fault environment only exists for the (unprivileged) workers: minimise through
+            // child processes; the failing operation is made the last one first
+            let cut = (fv.violation.step + 1).min(fv.ops.len());
+            let mut rf = ReplayFile {
+                property: id.to_string(),
+                seed,
+                run: fv.run,
+                world: fv.world.clone(),
+                ops: fv.ops[..cut].to_vec(),
+                faults: vec![],
+                violation: fv.violation.clone(),
+                minimised: false,
+                original_ops: fv.ops.len(),
+                note: String::new(),
+            };
+            minimise_children(&mut rf, &format!("{}/{}-cand.json", work, id), 120);
+            (rf.world, rf.ops, rf.violation)
+        } else {
+            shrink::minimise(prop.as_ref(), &fv.world, &fv.ops, &fv.violation, 3000, 15)
+        };
         let rf = ReplayFile {
             property: id.to_string(),
             seed,
@@ -389,10 +411,9 @@ fn cmd_run(args: &Args) -> i32 {
             original_ops: fv.ops.len(),
             note: String::new(),
         };
-        replay_path = format!("{}/replays/{}-{}-{}.json", root, id, seed, fv.run);
         std::fs::write(&replay_path, serde_json::to_string_pretty(&rf).unwrap()).expect("write replay");
         // the minimised file must reproduce in a fresh process
-        let st = Command::new(std::env::current_exe().unwrap()).arg("replay").arg(&replay_path).arg("--quiet").arg("1").status();
+        let st = wrapped_self().arg("replay").arg(&replay_path).arg("--quiet").arg("1").status();
         match st.map(|s| s.code()) {
             Ok(Some(1)) => {}
             other => {
@@ -486,9 +507,27 @@ fn observe_enospc() {
 }
 
 /// Minimise a hanging history: candidates run in child processes under a short watchdog.
-fn minimise_hang(rf: &mut ReplayFile, tmp: &str) {
+fn wrapped_self() -> Command {
     let exe = std::env::current_exe().unwrap();
-    let mut budget = 40usize;
+    let wrap: Vec<String> = std::env::var("SIMCHECK_WORKER_WRAP").ok().map(|w| w.split_whitespace().map(|x| x.to_string()).collect()).unwrap_or_default();
+    if wrap.is_empty() {
+        Command::new(&exe)
+    } else {
+        let mut c = Command::new(&wrap[0]);
+        c.args(&wrap[1..]).arg(&exe);
+        c
+    }
+}
+
+fn minimise_hang(rf: &mut ReplayFile, tmp: &str) {
+    minimise_children(rf, tmp, 40)
+}
+
+/// ddmin over the operations with candidates executed in child processes (through the worker
+/// wrapper, if any): for hangs, crashes, and for environments whose faults only exist for an
+/// unprivileged process (C18). The failing operation must be the last one.
+fn minimise_children(rf: &mut ReplayFile, tmp: &str, max_candidates: usize) {
+    let mut budget = max_candidates;
     let mut still_hangs = |cand: &ReplayFile, budget: &mut usize| -> bool {
         if *budget == 0 {
             return false;
@@ -497,7 +536,7 @@ fn minimise_hang(rf: &mut ReplayFile, tmp: &str) {
         if std::fs::write(tmp, serde_json::to_string(cand).unwrap()).is_err() {
             return false;
         }
-        let st = Command::new(&exe).arg("replay").arg(tmp).arg("--quiet").arg("1").env("SIMCHECK_REPLAY_HANG_SECS", "3").stdout(std::process::Stdio::null()).stderr(std::process::Stdio::null()).status();
+        let st = wrapped_self().arg("replay").arg(tmp).arg("--quiet").arg("1").env("SIMCHECK_REPLAY_HANG_SECS", "3").stdout(std::process::Stdio::null()).stderr(std::process::Stdio::null()).status();
         matches!(st.map(|s| s.code()), Ok(Some(1)))
     };
     if !still_hangs(rf, &mut budget) {
@@ -736,18 +775,21 @@ fn cmd_selftest(args: &Args) -> i32 {
     let start = std::time::Instant::now();
     for p in props::all() {
         let id = p.id();
-        let a = collect(spawn_workers(id, seed, 0, n, 5, &work, &[], true, 0, "detA"));
-        let b = collect(spawn_workers(id, seed, 0, n, 3, &work, &[], true, 0, "detB"));
         let mut ma = BTreeMap::new();
-        for r in &a {
-            for (i, h) in &r.run_hashes {
-                ma.insert(*i, *h);
-            }
-        }
         let mut mb = BTreeMap::new();
-        for r in &b {
-            for (i, h) in &r.run_hashes {
-                mb.insert(*i, *h);
+        // two VERIF_SEED values, half of the run indices each
+        for (k, sd) in [seed, seed.wrapping_add(977)].iter().enumerate() {
+            let a = collect(spawn_workers(id, *sd, 0, n / 2, 5, &work, &[], true, 0, "detA"));
+            let b = collect(spawn_workers(id, *sd, 0, n / 2, 3, &work, &[], true, 0, "detB"));
+            for r in &a {
+                for (i, h) in &r.run_hashes {
+                    ma.insert((k, *i), *h);
+                }
+            }
+            for r in &b {
+                for (i, h) in &r.run_hashes {
+                    mb.insert((k, *i), *h);
+                }
             }
         }
         // runs after a violation are not executed by a worker; compare the common prefix set
@@ -771,9 +813,9 @@ fn cmd_selftest(args: &Args) -> i32 {
             all_ok = false;
         }
         println!("determinism {}: compared {} runs in two process groups (5 and 3 workers), diverged {}", id, compared, diverged.len());
-        detail.insert(id.to_string(), serde_json::json!({"runs_compared": compared, "diverged": diverged.len(), "first_diverged": diverged.first()}));
+        detail.insert(id.to_string(), serde_json::json!({"runs_compared": compared, "diverged": diverged.len()}));
     }
-    let out = serde_json::json!({"ok": all_ok, "seed": seed, "seeds_per_property": n, "worker_counts": [5, 3], "per_property": detail, "wall_s": start.elapsed().as_secs_f64()});
+    let out = serde_json::json!({"ok": all_ok, "verif_seeds": [seed, seed.wrapping_add(977)], "runs_per_property": n, "worker_counts": [5, 3], "per_property": detail, "wall_s": start.elapsed().as_secs_f64()});
     std::fs::write(format!("{}/.work/determinism.json", root), serde_json::to_string_pretty(&out).unwrap()).expect("write determinism.json");
     if all_ok {
         0
